@@ -20,6 +20,7 @@ var durByText = map[string]time.Duration{
 	"1h":  time.Hour,
 	"90m": 90 * time.Minute,
 	"2h":  2 * time.Hour,
+	"4h":  4 * time.Hour,
 	"6h":  6 * time.Hour,
 	"1d":  24 * time.Hour,
 	"7d":  168 * time.Hour,
@@ -35,7 +36,7 @@ func genCaseAlterDur(t *rapid.T, md mode) (caseDesc, *genInfo) {
 	per := rapid.IntRange(1, 8/nodes).Draw(t, "pt_per_node")
 	gi.ptNum = nodes * per
 	cd.Cfg = clusterCfg{Nodes: nodes, PtPerNode: per}
-	initial := rapid.SampledFrom([]string{"1h", "1h", "1h", "1d", "1d", "90m", "2h", "6h", ""}).Draw(t, "shard_duration")
+	initial := rapid.SampledFrom([]string{"1h", "1h", "1h", "1d", "1d", "90m", "2h", "6h", "", "4h", "90m"}).Draw(t, "shard_duration")
 	gi.sgDur = durByText[initial]
 	create := "CREATE DATABASE " + dbName + " WITH"
 	if initial != "" {
@@ -80,7 +81,7 @@ func genCaseAlterDur(t *rapid.T, md mode) (caseDesc, *genInfo) {
 
 	// ---- duration changes: change j is applied before batch j+1
 	nChanges := rapid.IntRange(1, 3).Draw(t, "n_changes")
-	pool := []string{"1d", "1h", "1d", "1h", "90m", "2h", "6h", "7d"}
+	pool := []string{"1d", "1h", "1d", "1h", "90m", "2h", "6h", "7d", "4h", "90m"}
 	durs := []time.Duration{gi.sgDur} // duration in force while batch b is written
 	var changeText []string
 	for j := 0; j < nChanges; j++ {
